@@ -224,6 +224,7 @@ def smt_check(pc, goal, timeout_ms=None, want_model=None, use_cvc5=True, defs=No
         # small focused queries go to the solver whole: a sub-layer that lacks a length bound is satisfiable only by
         # very long strings, which z3's sequence solver constructs slowly and without honouring its timeout
         layers = [] if len(fq) <= 15 else relevance_layers(fflat[:-1] if len(fflat) == len(fq) + 1 else fflat, fg)
+        tried_cvc5 = False
         for hops in ([None] + layers):
             s = z3.Solver()
             s.set('timeout', min(timeout_ms or Z3_TIMEOUT_MS, 3000))
@@ -231,7 +232,13 @@ def smt_check(pc, goal, timeout_ms=None, want_model=None, use_cvc5=True, defs=No
                 s.add(c)
             if s.check() == z3.unsat:
                 return 'discharged', 'z3-%s(focused %d/%d)' % (z3.get_version_string(), len(fq), len(pc)), time.time() - t0, None, None
-        if use_cvc5 and has_seq_terms(fflat) and left() > 3 and cvc5_formulas(fflat, max(2, min(10, int(left() / 2)))) == 'unsat':
+            if hops is None and use_cvc5 and has_seq_terms(fflat) and left() > 6:
+                # the other solver gets the whole focused query right after z3's first attempt, before z3's layered retries eat
+                # the budget (z3's sequence solver is unstable on identical input; cvc5 decides many of the same queries in seconds)
+                tried_cvc5 = True
+                if cvc5_formulas(fflat, max(2, min(10, int(left() / 2)))) == 'unsat':
+                    return 'discharged', 'cvc5-1.0.3(focused %d/%d)' % (len(fq), len(pc)), time.time() - t0, None, None
+        if not tried_cvc5 and use_cvc5 and has_seq_terms(fflat) and left() > 3 and cvc5_formulas(fflat, max(2, min(10, int(left() / 2)))) == 'unsat':
             return 'discharged', 'cvc5-1.0.3(focused %d/%d)' % (len(fq), len(pc)), time.time() - t0, None, None
     except z3.Z3Exception:
         pass
